@@ -19,11 +19,27 @@ class Unsupported(Exception):
     pass
 
 
+_INTERN = {}
+
+
+def order_of(x):
+    """Small integer identifying a hashable value up to structural equality (first-seen order).
+    Used instead of repr() for canonical ordering: cheap even for deeply nested symbolic values."""
+    i = _INTERN.get(x)
+    if i is None:
+        i = len(_INTERN)
+        _INTERN[x] = i
+    return i
+
+
 class Poly:
-    __slots__ = ("t",)
+    __slots__ = ("t", "_key", "_hash", "_repr")
 
     def __init__(self, terms=None):
         self.t = {k: v for k, v in (terms or {}).items() if v != 0}
+        self._key = None
+        self._hash = None
+        self._repr = None
 
     @staticmethod
     def const(c):
@@ -59,18 +75,22 @@ class Poly:
                 d = dict(k1)
                 for a, e in k2:
                     d[a] = d.get(a, 0) + e
-                k = tuple(sorted(d.items(), key=repr))
+                k = tuple(sorted(d.items(), key=lambda it: order_of(it[0])))
                 r[k] = r.get(k, 0) + v1 * v2
         return Poly(r)
 
     def key(self):
-        return tuple(sorted(((k, v) for k, v in self.t.items()), key=repr))
+        if self._key is None:
+            self._key = tuple(sorted(((k, v) for k, v in self.t.items()), key=lambda it: tuple(order_of(a) for a, _ in it[0])))
+        return self._key
 
     def __eq__(self, o):
-        return isinstance(o, Poly) and self.key() == o.key()
+        return isinstance(o, Poly) and (self is o or self.key() == o.key())
 
     def __hash__(self):
-        return hash(self.key())
+        if self._hash is None:
+            self._hash = hash(self.key())
+        return self._hash
 
     def atoms(self):
         s = set()
@@ -80,10 +100,15 @@ class Poly:
         return s
 
     def __repr__(self):
+        if self._repr is None:
+            self._repr = self._mkrepr()
+        return self._repr
+
+    def _mkrepr(self):
         if not self.t:
             return "0"
         parts = []
-        for k, v in sorted(self.t.items(), key=repr):
+        for k, v in sorted(self.t.items(), key=lambda it: tuple(fmt_atom(a) for a, _ in it[0])):
             mon = "*".join((fmt_atom(a) + ("^%d" % e if e != 1 else "")) for a, e in k)
             if mon == "":
                 parts.append(str(v))
@@ -96,12 +121,20 @@ class Poly:
         return " + ".join(parts)
 
 
+_FMT = {}
+
+
 def fmt_atom(a):
-    if a[0] == "v":
-        return a[1]
-    if a[0] == "f":
-        return "%s(%s)" % (a[1], ", ".join(fmt_key(x) for x in a[2:]))
-    return repr(a)
+    r = _FMT.get(a)
+    if r is None:
+        if a[0] == "v":
+            r = a[1]
+        elif a[0] == "f":
+            r = "%s(%s)" % (a[1], ", ".join(fmt_key(x) for x in a[2:]))
+        else:
+            r = repr(a)
+        _FMT[a] = r
+    return r
 
 
 def fmt_key(k):
@@ -273,6 +306,11 @@ def contains_atom(v, pred):
     if isinstance(v, (tuple, list)):
         return any(contains_atom(x, pred) for x in v)
     return False
+
+
+def cmp_atom(op, a, b):
+    """the canonical comparison value SymEval produces for `a op b` (op in eq, ne, lt, le, gt, ge)"""
+    return SymEval(None).arith(op.capitalize(), a, b)
 
 
 def split_signed(v):
@@ -582,13 +620,13 @@ class SymEval:
             flip = {"Gt": "Lt", "Ge": "Le"}
             if op in flip:
                 op, a, b = flip[op], b, a
-            if op in ("Eq", "Ne") and repr(vkey(a)) > repr(vkey(b)):
+            if op in ("Eq", "Ne") and order_of(vkey(a)) > order_of(vkey(b)):
                 a, b = b, a
             return app(op.lower(), a, b)
         if op in ("And", "Or"):
             return app(op.lower(), a, b)
         if op in ("BitAnd", "BitOr", "BitXor"):
-            if repr(vkey(a)) > repr(vkey(b)):
+            if order_of(vkey(a)) > order_of(vkey(b)):
                 a, b = b, a
             return app(op.lower(), a, b)
         return app(op.lower(), a, b)
@@ -655,7 +693,7 @@ class SymEval:
         e = self.eval(n["e"], env) if "e" in n else ("tuple", [])
         if isinstance(c, tuple) and c and c[0] == "bool":
             return t if c[1] else e
-        if repr(vkey(t)) == repr(vkey(e)):
+        if vkey(t) == vkey(e):
             return t
         return app("ite", c, t, e)
 
@@ -694,7 +732,7 @@ class SymEval:
         mm = STD_NUM_RX.match(path or "")
         if mm:
             name = mm.group(2)
-            if name in ("max", "min") and len(args) == 2 and repr(vkey(args[0])) > repr(vkey(args[1])):
+            if name in ("max", "min") and len(args) == 2 and order_of(vkey(args[0])) > order_of(vkey(args[1])):
                 args = [args[1], args[0]]
             return app(name, *args)
         body = self.inline(inst or path) or self.inline(path)
